@@ -6,3 +6,23 @@ pub open spec fn fmt_wrote(o: Seq<char>, n: Seq<char>, s: Seq<char>, ok: bool) -
 pub assume_specification<'a> [Formatter::<'a>::write_str] (f: &mut Formatter<'a>, s: &str) -> (r: FmtResult)
     ensures fmt_wrote(fmt_out(*old(f)), fmt_out(*final(f)), s@, r.is_ok());
 
+// `f.debug_struct(name).field(..).field(..).finish()` (hand-written Debug impls): total; the rendering is not specified
+#[verifier::external_type_specification]
+#[verifier::external_body]
+pub struct ExDebugStruct<'a, 'b: 'a>(std::fmt::DebugStruct<'a, 'b>);
+pub assume_specification<'a, 'b> [Formatter::<'a>::debug_struct] (f: &'b mut Formatter<'a>, name: &str) -> (r: std::fmt::DebugStruct<'b, 'a>);
+pub assume_specification<'a, 'b: 'a, 'c> [std::fmt::DebugStruct::<'a, 'b>::field] (d: &'c mut std::fmt::DebugStruct<'a, 'b>, name: &str, value: &dyn std::fmt::Debug) -> (r: &'c mut std::fmt::DebugStruct<'a, 'b>);
+pub assume_specification<'a, 'b: 'a> [std::fmt::DebugStruct::<'a, 'b>::finish] (d: &mut std::fmt::DebugStruct<'a, 'b>) -> (r: FmtResult);
+/// shadowed `writeln!(vec, ..)` on a Vec<u8> (io::Write for Vec never fails): appends at least the newline
+#[verifier::external_body]
+pub fn vec_writeln(v: &mut Vec<u8>) -> (r: Result<(), IOError>)
+    ensures r is Ok, final(v)@.len() > old(v)@.len()
+{ unimplemented!() }
+#[verifier::external_type_specification]
+#[verifier::external_body]
+pub struct ExFromUtf8Error(std::string::FromUtf8Error);
+/// `String::from_utf8`: total; which byte strings are UTF-8 is not needed by its one caller (debug_headers)
+pub assume_specification [String::from_utf8] (v: Vec<u8>) -> (r: Result<String, std::string::FromUtf8Error>);
+/// `String::from_utf8_lossy(b).to_string()`
+#[verifier::external_body]
+pub fn bytes_to_string_lossy(b: &[u8]) -> (r: String) { unimplemented!() }
